@@ -196,9 +196,13 @@ func run(g *graph, reqs []int64, mode, k int) obs {
 			for i := 0; i < k && ord.Next(); i++ {
 				o.seq = append(o.seq, int64(ord.RelationID()))
 			}
-			if mode == 1 {
+			switch mode {
+			case 1:
 				ord.Close()
-			} else {
+			case 4:
+				cancel()
+				ord.Close()
+			default:
 				cancel()
 			}
 			if ord.Next() {
@@ -707,7 +711,7 @@ func mkCaseObs(g *graph, reqs []int64, mode, k int, o obs) *wire.Case {
 	}
 	c.Ints(reqs).Int(int64(mode)).Int(int64(k))
 	c.Ints(o.seq).Int(int64(o.err)).Bool(o.terminated).Int(o.ci)
-	c.Desc = map[string]interface{}{"relations": dn, "requested": reqs, "mode": []string{"run to the end", "Close after k Next", "cancel after k Next", "Close while the datasource is inside the lookup of relation k (it returns only when its context is done)"}[mode], "k": k,
+	c.Desc = map[string]interface{}{"relations": dn, "requested": reqs, "mode": []string{"run to the end", "Close after k Next", "cancel after k Next", "Close while the datasource is inside the lookup of relation k (it returns only when its context is done)", "cancel then Close after k Next"}[mode], "k": k,
 		"emitted": o.seq, "err_class": o.err, "terminated": o.terminated, "completed_index": o.ci}
 	c.OracleFail = oracle(g, reqs, mode, o)
 	c.Trivial = len(g.nodes) < 2
@@ -746,6 +750,34 @@ func corpus() []struct {
 	}
 }
 
+// failing: fixed graphs in which one datasource lookup fails with a real error (not NotFound), at
+// the root, in the middle of a chain, at a leaf, behind a cycle, on a later requested id
+func failing() []struct {
+	g    *graph
+	reqs []int64
+} {
+	r := func(id int64, ms ...int64) node {
+		var l []member
+		for _, m := range ms {
+			l = append(l, member{true, m})
+		}
+		return node{id: id, versions: [][]member{l}}
+	}
+	bad := func(id int64) node { return node{id: id, kind: 2, versions: [][]member{{}}} }
+	type q = struct {
+		g    *graph
+		reqs []int64
+	}
+	return []q{
+		{&graph{class: "failing/root", nodes: []node{bad(1), r(2)}}, []int64{1, 2}},
+		{&graph{class: "failing/second-request", nodes: []node{r(1, 3), bad(2), r(3)}}, []int64{1, 2, 3}},
+		{&graph{class: "failing/mid-chain", nodes: []node{r(1, 2), r(2, 3), bad(3), r(4)}}, []int64{4, 1, 2}},
+		{&graph{class: "failing/leaf-after-siblings", nodes: []node{r(1, 2, 3, 4), r(2), r(3), bad(4)}}, []int64{1, 4}},
+		{&graph{class: "failing/behind-cycle", nodes: []node{r(1, 2), r(2, 1, 3), bad(3), r(5)}}, []int64{5, 2, 1, 5}},
+		{&graph{class: "failing/last", nodes: []node{r(1), r(2), r(3, 1), bad(9)}}, []int64{1, 2, 3, 9}},
+	}
+}
+
 func main() {
 	a := wire.ParseArgs()
 	rng := wire.Rng(a.Seed)
@@ -761,6 +793,17 @@ func main() {
 		full = append(full, wr.Add(mkCase(q.g, q.reqs, 0, 0)))
 		wr.Add(mkCase(q.g, q.reqs, 1, 1))
 		wr.Add(mkCase(q.g, q.reqs, 2, 0))
+	}
+	// DIRECTED (independent of the random stream): a datasource lookup fails with a real error and
+	// the consumer stops -- Close without a further Next, cancel only, Close after cancel -- after
+	// every number k of Next calls from 0 to the number of requested ids, under the watchdog
+	for _, q := range failing() {
+		for _, mode := range []int{1, 2, 4} {
+			for k := 0; k <= len(q.reqs) && hung < 3; k++ {
+				wr.Add(mkCase(q.g, q.reqs, mode, k))
+			}
+		}
+		full = append(full, wr.Add(mkCase(q.g, q.reqs, 0, 0)))
 	}
 	for i := 0; i < ngraphs && hung < 3; i++ {
 		g := genGraph(rng)
